@@ -260,6 +260,12 @@ def all_cases(ctx):
                 for sname in ("é", "a" * 30 + "中", "", "näme 中😀"):
                     cases.append({"kind": "combo", "parts": [{"kind": "field", "n": a, "v": va},
                                                              {"kind": "name", "which": which, "s": sname}]})
+    # a header field together with pattern content: every "based on" version with 16-bit module numbers in the cells
+    for v in PROJECT_FIELDS["based_on_version"] + [[1, 9, 4, 2], [1, 9, 5, 0], [1, 7, 0, 0]]:
+        for cell in ([1, 0, 0x0201, 0, 0], [0, 0, 0x0100, 0, 0], [120, 129, 0xFFFF, 0xFFFF, 0xFFFF]):
+            cases.append({"kind": "combo", "parts": [{"kind": "field", "n": "based_on_version", "v": v},
+                                                     {"kind": "patterns", "slots": [{"t": "pattern", "tracks": 2, "lines": 3,
+                                                                                     "cells": [[1, 1, cell]]}]}]})
     cases += pattern_cases(ctx.thorough)
     for counts in ([2, 5], [5, 2], [0, 96], [96, 0], [1, 2, 3], [3, 3]):
         cases.append({"kind": "metamodules", "counts": counts})
@@ -307,6 +313,29 @@ def _task(t):
             except Exception as e:
                 vs, b = [C.viol("deviation-rejected", {"type": tkey, "exc": type(e).__name__,
                                                        "rejected": rejected_dev(tkey, c)},
+                                {"error": repr(e)}, case)], b""
+            r["evals"] += 1
+            r["digests"].add(C.h8(b))
+            r["violations"] += vs[:2] if len(r["violations"]) < 40 else []
+        r["sample"] = {"kind": "module", "mods": [[tkey, combos[-1]]]} if combos else None
+    elif kind == "commonpairs":
+        # k = 2 over the settings every module type shares (placement, colour, MIDI in/out, flags, visualisation): two
+        # values per field, every compatible pair, on one representative type
+        _k, tkey, seed, lo, hi = t
+        devs = [d for d in deviate.module_devs(tkey, seed) if d["k"] in deviate.COMMON_KINDS and d.get("n") != "data"]
+        per_field = {}
+        for d in devs:
+            per_field.setdefault((d["k"], d.get("n")), []).append(d)
+        small = [d for ds in per_field.values() for d in ({id(x): x for x in (ds[min(1, len(ds) - 1)], ds[-1])}.values())]
+        combos = [list(pq) for pq in deviate.pairs(small)][lo:hi]
+        for c in combos:
+            case = {"kind": "module", "mods": [[tkey, c]]}
+            try:
+                b_unobserved = C.save(build_case(case))
+                p = build_case(case)
+                vs, b = roundtrip(p, case, "module", {"type": tkey, "k": 2})
+            except Exception as e:
+                vs, b = [C.viol("deviation-rejected", {"type": tkey, "exc": type(e).__name__, "rejected": rejected_dev(tkey, c)},
                                 {"error": repr(e)}, case)], b""
             r["evals"] += 1
             r["digests"].add(C.h8(b))
@@ -456,6 +485,8 @@ def run(ctx):
         n = len(deviate.module_devs(k, ctx.seed)) + 1
         for lo in range(0, n, 60):
             tasks.append(("moddevs", k, ctx.seed, lo, min(n, lo + 60)))
+    for lo in range(0, 1400, 100):
+        tasks.append(("commonpairs", "Amplifier", ctx.seed, lo, lo + 100))
     tk = deviate.type_keys()
     if ctx.thorough:
         prs = [(a, b) for a in tk for b in tk]
